@@ -155,8 +155,8 @@ type offerTracker struct {
 	openOut, maxOut int // streams the node under test opened towards puppets (its outbound offers)
 	openIn, maxIn   int // streams puppets opened towards the node under test (its inbound offers)
 	received        map[string][]byte
-	stalledSince    []time.Duration // establishment times of inbound streams the puppet stalls
-	noListenAt      []time.Duration // when an offer was accepted without any listener behind the connection id
+	stalledSince    []time.Duration          // establishment times of inbound streams the puppet stalls
+	noListenAt      []time.Duration          // when an offer was accepted without any listener behind the connection id
 	pendingDial     map[uint16]time.Duration // accepted offers whose stream the offerer has not established yet (by connection id)
 	now             func() time.Duration
 	outcomes        map[string]int
